@@ -107,6 +107,52 @@ def oracleSigC08With (somRule : Bool) (rate : Nat) (spans : List (Nat × Nat)) (
 def oracleSigC08 (rate : Nat) (spans : List (Nat × Nat)) (evs : List SigEv) : Option String :=
   oracleSigC08With true rate spans evs
 
+/-- the intervals `[a, b)` (in samples) during which the link layer reports NoCarrier: from every
+    `N` link event to the next link event (`none` = to the end of the stream) -/
+def idleIntervals : List SigEv → List (Nat × Option Nat)
+  | [] => []
+  | .link a 'N' _ :: rest =>
+    let nxt := rest.findSome? (fun e => match e with | .link t _ _ => some t | _ => none)
+    (a, nxt) :: idleIntervals rest
+  | _ :: rest => idleIntervals rest
+
+/-- C08, "a pending result is never held": judged on the event trace alone, for any audio.
+    A StartOfMessage is anchored at the last Burst event before it (every burst re-arms the hold, so
+    that is the latest possible start of its hold).  It is on time if it comes within 1.5 s of that
+    burst.  Later than that is only acceptable if the link layer was never idle (NoCarrier) between
+    the expiry of the hold (1.311 s, taken as 1.35 s for clock slack) and 150 ms before the report:
+    an idle moment after the deadline must release the message.
+    `expect`: when given, exactly one StartOfMessage with this text must have been reported by the
+    end of the stream (which ends with 4 s of silence). -/
+def oracleSigC08Hold (rate : Nat) (expect : Option (List Byte)) (evs : List SigEv) : Option String :=
+  let idle := idleIntervals evs
+  let late := evs.findSome? (fun e =>
+    match e with
+    | .msg t (.som ..) =>
+      let tb := (evs.filterMap (fun p => match p with
+        | .link tp 'B' _ => if tp ≤ t then some tp else none | _ => none)).getLast?
+      match tb with
+      | none => some s!"StartOfMessage at sample {t} with no burst before it"
+      | some tb =>
+        if t ≤ tb + (3 * rate) / 2 then none
+        else
+          let lo := tb + (135 * rate) / 100
+          let hi := t - (15 * rate) / 100
+          match idle.find? (fun iv => max iv.1 lo < (match iv.2 with | some b => min b hi | none => hi)) with
+          | some iv => some s!"StartOfMessage {((t - tb) * 1000) / rate} ms after the last burst before it, although the hold had expired and the link was idle from sample {max iv.1 lo} (bound 1500 ms, or the first idle moment after the hold)"
+          | none => none
+    | _ => none)
+  match late with
+  | some e => some e
+  | none =>
+    match expect with
+    | none => none
+    | some h =>
+      let soms := evs.filterMap (fun e => match e with | .msg _ (.som t _ _) => some t | _ => none)
+      if soms == [h] then none
+      else if soms.isEmpty then some "the header was sent in two or more bursts and 4 s of silence followed, but no StartOfMessage was ever reported (held indefinitely or lost)"
+      else some s!"expected exactly one StartOfMessage with the transmitted text, got {soms.length}"
+
 /-- C02 at signal level: one transmission with header presence mask `hm`, trailer mask `tm`
     (bit 4 = first burst); `lone`: no other burst is heard in the history window before the
     trailer. -/
